@@ -44,6 +44,13 @@ def gen_case(R, tier):
     return {"family": "corpus", "name": c.choice(names), "ncycles": R("input").randint(10, 30),
             "input_seed": R("input").getrandbits(32), "hash_seed": R.sub_seed("hash"),
             "scheds": [[x, s.getrandbits(32), s.getrandbits(32)] for x in s.sample(C.ALL_SCHEDS, 4)]}
+  if c.random() < 0.06:
+    from ..gen import paramcls
+    s = R("sched")
+    d = paramcls.gen(c, "p%x" % (R.seed & 0xffffff))
+    d.update(family="paramcls", hash_seed=R.sub_seed("hash"),
+             scheds=[[x, s.getrandbits(32), s.getrandbits(32)] for x in s.sample(C.ALL_SCHEDS, 3)])
+    return d
   prof = c.choice(PROFILES)
   spec = designgen.DesignGen(c, prof, uid="c%x" % (R.seed & 0xffffff)).gen()
   inp = R("input")
@@ -202,9 +209,71 @@ def run_corpus(case):
   return {"violations": viols, "digest": D.hex(), "nontrivial": len(traces) >= 2, "stats": stats}
 
 
+def run_paramcls(case):
+  """classes whose block bodies depend on constructor parameters; the same classes elaborated twice"""
+  from pymtl3 import Bits1, Bits8
+  from pymtl3.dsl.errors import UpblkCyclicError
+  from ..core import seams
+  from ..gen import emit, paramcls
+  from ..sched import harness
+  D = _rng.Digest()
+  stats = {"fault_counts": {"family.paramcls": 1}, "schedules": [], "sim_cycles": 0,
+           "probes": {"designs_with_subcomponents": 1, "designs_with_structs": 0, "blocks_ge_12": 1}}
+  stats["probes"].update({k: 0 for k in C.shape_probes({"comps": {}, "structs": {}})})
+  viols = []
+  try:
+    ns, cls, _ = emit.build({"uid": case["uid"], "top": "Top"}, src=paramcls.SRC.format(uid=case["uid"]))
+  except Exception as e:
+    return {"violations": [C.exc_violation(e, "build/paramcls")], "digest": D.hex(), "nontrivial": False, "stats": stats}
+  for which, params in enumerate(case["params"]):
+    for sched, sseed, fseed in case["scheds"]:
+      seams.set_hash_stream(case["hash_seed"] ^ sseed ^ which)
+      try:
+        top = cls([tuple(p) for p in params])
+        top.elaborate()
+        harness.prepare(top, sched, sseed, ff_perm_seed=fseed)
+        top.sim_reset()
+      except UpblkCyclicError:
+        continue
+      except Exception as e:
+        viols.append(C.exc_violation(e, "build/paramcls/%s" % sched))
+        break
+      stats["fault_counts"]["sched." + sched] = stats["fault_counts"].get("sched." + sched, 0) + 1
+      ref = paramcls.Ref(params)
+      for _ in range(int(top.cnt)):          # the edges sim_reset() applied (inputs all zero)
+        ref.tick({"a": [0] * case["n"], "b": 0, "sel": 0})
+      try:
+        for t, inp in enumerate(case["inputs"]):
+          for i in range(case["n"]):
+            top.a[i] @= Bits8(inp["a"][i])
+          top.b @= Bits8(inp["b"])
+          top.sel @= Bits1(inp["sel"])
+          top.sim_eval_combinational()
+          o, q = ref.comb(inp)
+          got = ([int(x) for x in top.o], [int(x) for x in top.q])
+          D.add(which, sched, t, got)
+          if got != (o, q):
+            viols.append(C.viol("value_mismatch", {"sched": sched, "sched_seed": sseed, "where": "eval@%d" % t,
+                                                   "elaboration": which, "params": params, "got": got, "want": [o, q],
+                                                   "family": "paramcls"}))
+            break
+          top.sim_tick()
+          ref.tick(inp)
+          stats["sim_cycles"] += 1
+      except Exception as e:
+        viols.append(C.exc_violation(e, "sim/paramcls/%s" % sched))
+      if viols:
+        break
+    if viols:
+      break
+  return {"violations": viols[:1], "digest": D.hex(), "nontrivial": stats["sim_cycles"] > 0, "stats": stats}
+
+
 def run_case(case):
   if case.get("family") == "corpus":
     return run_corpus(case)
+  if case.get("family") == "paramcls":
+    return run_paramcls(case)
   D = _rng.Digest()
   stats = {"fault_counts": {}, "schedules": [], "sim_cycles": 0, "nonzero": False}
   viols = []
@@ -228,8 +297,8 @@ def run_case(case):
 
 def sample(case):
   from ..gen import emit
-  if case.get("family") == "corpus":
-    return case
+  if case.get("family") in ("corpus", "paramcls"):
+    return {k: v for k, v in case.items() if k != "inputs"}
   src = emit.source(case["spec"])
   return {"profile": case["spec"].get("profile"), "scheds": case["scheds"],
           "n_cycles": len(case["inputs"]), "first_input": case["inputs"][0],
@@ -243,5 +312,13 @@ def shrink(case):
         yield dict(case, scheds=[case["scheds"][0], case["scheds"][i]])
     if case["ncycles"] > 2:
       yield dict(case, ncycles=case["ncycles"] // 2)
+    return
+  if case.get("family") == "paramcls":
+    if len(case["scheds"]) > 1:
+      for sc in case["scheds"]:
+        yield dict(case, scheds=[sc])
+    if len(case["inputs"]) > 1:
+      yield dict(case, inputs=case["inputs"][:len(case["inputs"]) // 2])
+      yield dict(case, inputs=case["inputs"][:1])
     return
   yield from C.shrink_spec_case(case)
